@@ -14,9 +14,59 @@ Q(n, d) == Norm(n, d)
 RPos(a) == a[1] > 0
 RNg(a) == a[1] < 0
 RIsZ(a) == a[1] = 0
-NSq(v) == VDot(v, v)
-RHalf(a) == RMul(Half, a)
-RMid(a, b) == RHalf(RAdd(a, b))
+(* ---- overflow-guarded exact arithmetic ------------------------------------------------------------------ *)
+(* TLC integers are 32 bit and TLC aborts on overflow.  Every operation below checks, after cancelling common    *)
+(* factors, that no product can exceed 2^31 - 1; otherwise it returns OVF (denominator 0), which is absorbing.   *)
+(* Comparisons are exact and never multiply when a product could overflow (continued-fraction comparison).      *)
+(* The trace validation drops an assignment whose leaf values contain OVF and counts a constraint whose value    *)
+(* is OVF as "not evaluated" (reported, never a verdict).                                                        *)
+OVF == <<1, 0>>
+IsOvf(a) == a[2] = 0
+MAXI == 2147483647
+HALFI == 1073741823
+SMul(a, b) == IF a[2] = 0 \/ b[2] = 0 THEN OVF ELSE IF a[1] = 0 \/ b[1] = 0 THEN Z ELSE
+   LET g1 == Gcd(Abs(a[1]), b[2])  g2 == Gcd(Abs(b[1]), a[2])
+       p == a[1] \div g1  q == b[1] \div g2  r == a[2] \div g2  s == b[2] \div g1
+   IN IF Abs(p) <= MAXI \div Abs(q) /\ r <= MAXI \div s THEN <<p * q, r * s>> ELSE OVF
+SAdd(a, b) == IF a[2] = 0 \/ b[2] = 0 THEN OVF ELSE IF a[1] = 0 THEN b ELSE IF b[1] = 0 THEN a ELSE
+   LET g == Gcd(a[2], b[2])  u == b[2] \div g  v == a[2] \div g
+   IN IF Abs(a[1]) <= HALFI \div u /\ Abs(b[1]) <= HALFI \div v /\ v <= MAXI \div b[2]
+      THEN Norm(a[1] * u + b[1] * v, v * b[2]) ELSE OVF
+SSub(a, b) == SAdd(a, RNeg(b))
+SDiv(a, b) == IF b[2] = 0 THEN OVF ELSE SMul(a, RInv(b))
+SSq(a) == SMul(a, a)
+\* a <= b for non-negative rationals n1/d1, n2/d2 without multiplication: -1 (less), 0 (equal), 1 (greater)
+RECURSIVE CmpPos(_, _, _, _)
+CmpPos(n1, d1, n2, d2) ==
+   LET q1 == n1 \div d1  q2 == n2 \div d2  r1 == n1 % d1  r2 == n2 % d2 IN
+   IF q1 # q2 THEN (IF q1 < q2 THEN -1 ELSE 1)
+   ELSE IF r1 = 0 /\ r2 = 0 THEN 0 ELSE IF r1 = 0 THEN -1 ELSE IF r2 = 0 THEN 1
+   ELSE -CmpPos(d1, r1, d2, r2)
+Cmp(a, b) == IF a[1] < 0 /\ b[1] >= 0 THEN -1 ELSE IF a[1] >= 0 /\ b[1] < 0 THEN 1
+             ELSE IF a[1] >= 0 THEN CmpPos(a[1], a[2], b[1], b[2]) ELSE -CmpPos(-a[1], a[2], -b[1], b[2])
+SLeq(a, b) == IF a[2] = 0 \/ b[2] = 0 THEN FALSE ELSE
+   LET g == Gcd(a[2], b[2])  u == b[2] \div g  v == a[2] \div g
+   IN IF Abs(a[1]) <= MAXI \div u /\ Abs(b[1]) <= MAXI \div v THEN a[1] * u <= b[1] * v ELSE Cmp(a, b) <= 0
+SLt(a, b) == a[2] # 0 /\ b[2] # 0 /\ ~SLeq(b, a)
+SMin(a, b) == IF SLeq(a, b) THEN a ELSE b
+ASSUME /\ SMul(<<65536, 1>>, <<65536, 1>>) = OVF /\ SMul(<<46340, 1>>, <<46340, 1>>) = <<2147395600, 1>>
+       /\ SAdd(<<1, 65536>>, <<1, 65537>>) = OVF /\ SAdd(<<1, 65536>>, <<3, 65536>>) = <<1, 16384>>
+       /\ SLeq(<<1073741823, 1073741824>>, <<1073741822, 1073741823>>) = FALSE
+       /\ SLeq(<<1073741822, 1073741823>>, <<1073741823, 1073741824>>) = TRUE
+       /\ SLeq(<<-7, 3>>, <<-2, 1>>) /\ ~SLeq(<<-2, 1>>, <<-7, 3>>) /\ SLeq(<<5, 8>>, <<5, 8>>)
+       /\ \A a \in -4..4 : \A b \in 1..4 : \A c \in -4..4 : \A d \in 1..4 :
+             LET x == Norm(a, b)  y == Norm(c, d) IN
+             /\ SAdd(x, y) = RAdd(x, y) /\ SMul(x, y) = RMul(x, y) /\ SLeq(x, y) = RLeq(x, y)
+             /\ (Cmp(x, y) <= 0) = RLeq(x, y)
+\* vectors of dimension 1 or 2 as explicit tuples.  (LinForm!VAdd etc. build [k \in DOMAIN u |-> ..], which TLC keeps as a
+\* lazy lambda and re-evaluates at every access; everything on the hot path of the trace validation uses these instead.)
+TAdd(u, v) == IF Len(u) = 1 THEN <<SAdd(u[1], v[1])>> ELSE <<SAdd(u[1], v[1]), SAdd(u[2], v[2])>>
+TSub(u, v) == IF Len(u) = 1 THEN <<SSub(u[1], v[1])>> ELSE <<SSub(u[1], v[1]), SSub(u[2], v[2])>>
+TScale(s, u) == IF Len(u) = 1 THEN <<SMul(s, u[1])>> ELSE <<SMul(s, u[1]), SMul(s, u[2])>>
+TDot(u, v) == IF Len(u) = 1 THEN SMul(u[1], v[1]) ELSE SAdd(SMul(u[1], v[1]), SMul(u[2], v[2]))
+NSq(v) == TDot(v, v)
+RHalf(a) == SMul(Half, a)
+RMid(a, b) == RHalf(SAdd(a, b))
 Range(s) == {s[i] : i \in DOMAIN s}
 
 (* ------------------------------------------------------------------------------------------------------- *)
@@ -43,45 +93,45 @@ Supp(lo, hi) == Pc("supp", lo, hi, Z)
 Rsi(mu, L) == Pc("rsi", mu, L, Z)
 Aff(m) == Supp(m, m)                                   \* the linear function m t
 
-RsiG(mu, L, s) == IF RLeq(s, Half) THEN RMul(L, s)
-                  ELSE IF RLeq(s, One) THEN RAdd(RHalf(L), RMul(RSub(s, Half), RSub(RMul(Two, mu), L)))
-                  ELSE RMul(mu, s)
-RsiV(mu, L, s) == IF RLeq(s, Half) THEN RHalf(RMul(L, RSq(s)))
-                  ELSE IF RLeq(s, One) THEN
-                       LET u == RSub(s, Half) IN
-                       RAdd(RAdd(RMul(L, Q(1, 8)), RMul(RHalf(L), u)), RHalf(RMul(RSub(RMul(Two, mu), L), RSq(u))))
-                  ELSE RAdd(RMul(Q(1, 4), RAdd(L, mu)), RHalf(RMul(mu, RSub(RSq(s), One))))
+RsiG(mu, L, s) == IF SLeq(s, Half) THEN SMul(L, s)
+                  ELSE IF SLeq(s, One) THEN SAdd(RHalf(L), SMul(SSub(s, Half), SSub(SMul(Two, mu), L)))
+                  ELSE SMul(mu, s)
+RsiV(mu, L, s) == IF SLeq(s, Half) THEN RHalf(SMul(L, SSq(s)))
+                  ELSE IF SLeq(s, One) THEN
+                       LET u == SSub(s, Half) IN
+                       SAdd(SAdd(SMul(L, Q(1, 8)), SMul(RHalf(L), u)), RHalf(SMul(SSub(SMul(Two, mu), L), SSq(u))))
+                  ELSE SAdd(SMul(Q(1, 4), SAdd(L, mu)), RHalf(SMul(mu, SSub(SSq(s), One))))
 SgnR(t) == RI(Sgn(t[1]))
 
 PVal(pc, t) ==
   LET a == pc.p[1]  b == pc.p[2]  c == pc.p[3]  s == RAbs(t) IN
-  CASE pc.t = "qabs" -> RAdd(RHalf(RMul(a, RSq(t))), RMul(b, s))
-    [] pc.t = "qhub" -> RAdd(RHalf(RMul(a, RSq(t))),
-                             IF RLeq(s, c) THEN RHalf(RMul(b, RSq(t)))
-                             ELSE RSub(RMul(RMul(b, c), s), RHalf(RMul(b, RSq(c)))))
-    [] pc.t = "qk" -> IF RLeq(s, c) THEN RHalf(RMul(a, RSq(t)))
-                      ELSE RAdd(RHalf(RMul(a, RSq(c))), RMul(b, RSub(s, c)))
-    [] pc.t = "relu" -> IF RPos(t) THEN RMul(a, t) ELSE Z
-    [] pc.t = "plus2" -> IF RPos(t) THEN RHalf(RMul(a, RSq(t))) ELSE Z
-    [] pc.t = "vabs" -> RHalf(RMul(a, RMul(t, s)))
+  CASE pc.t = "qabs" -> SAdd(RHalf(SMul(a, SSq(t))), SMul(b, s))
+    [] pc.t = "qhub" -> SAdd(RHalf(SMul(a, SSq(t))),
+                             IF SLeq(s, c) THEN RHalf(SMul(b, SSq(t)))
+                             ELSE SSub(SMul(SMul(b, c), s), RHalf(SMul(b, SSq(c)))))
+    [] pc.t = "qk" -> IF SLeq(s, c) THEN RHalf(SMul(a, SSq(t)))
+                      ELSE SAdd(RHalf(SMul(a, SSq(c))), SMul(b, SSub(s, c)))
+    [] pc.t = "relu" -> IF RPos(t) THEN SMul(a, t) ELSE Z
+    [] pc.t = "plus2" -> IF RPos(t) THEN RHalf(SMul(a, SSq(t))) ELSE Z
+    [] pc.t = "vabs" -> RHalf(SMul(a, SMul(t, s)))
     [] pc.t = "ind" -> Z
-    [] pc.t = "supp" -> IF RGeq0(t) THEN RMul(b, t) ELSE RMul(a, t)
+    [] pc.t = "supp" -> IF RGeq0(t) THEN SMul(b, t) ELSE SMul(a, t)
     [] pc.t = "rsi" -> RsiV(a, b, s)
-PDom(pc, t) == pc.t = "ind" => (RLeq(pc.p[1], t) /\ RLeq(t, pc.p[2]))
+PDom(pc, t) == pc.t = "ind" => (SLeq(pc.p[1], t) /\ SLeq(t, pc.p[2]))
 \* the subdifferential at t as an interval <<l, u>> (every element of it is a subgradient)
 PSub(pc, t) ==
   LET a == pc.p[1]  b == pc.p[2]  c == pc.p[3]  s == RAbs(t)  pt(v) == <<v, v>> IN
-  CASE pc.t = "qabs" -> IF RIsZ(t) THEN <<RNeg(b), b>> ELSE pt(RAdd(RMul(a, t), RMul(b, SgnR(t))))
-    [] pc.t = "qhub" -> pt(RAdd(RMul(a, t), IF RLeq(s, c) THEN RMul(b, t) ELSE RMul(RMul(b, c), SgnR(t))))
-    [] pc.t = "qk" -> IF RLt(s, c) THEN pt(RMul(a, t))
-                      ELSE IF s = c THEN (IF RPos(t) THEN <<RMul(a, c), b>> ELSE <<RNeg(b), RNeg(RMul(a, c))>>)
-                      ELSE pt(RMul(b, SgnR(t)))
+  CASE pc.t = "qabs" -> IF RIsZ(t) THEN <<RNeg(b), b>> ELSE pt(SAdd(SMul(a, t), SMul(b, SgnR(t))))
+    [] pc.t = "qhub" -> pt(SAdd(SMul(a, t), IF SLeq(s, c) THEN SMul(b, t) ELSE SMul(SMul(b, c), SgnR(t))))
+    [] pc.t = "qk" -> IF SLt(s, c) THEN pt(SMul(a, t))
+                      ELSE IF s = c THEN (IF RPos(t) THEN <<SMul(a, c), b>> ELSE <<RNeg(b), RNeg(SMul(a, c))>>)
+                      ELSE pt(SMul(b, SgnR(t)))
     [] pc.t = "relu" -> IF RIsZ(t) THEN <<Z, a>> ELSE IF RPos(t) THEN pt(a) ELSE pt(Z)
-    [] pc.t = "plus2" -> IF RPos(t) THEN pt(RMul(a, t)) ELSE pt(Z)
-    [] pc.t = "vabs" -> pt(RMul(a, s))
+    [] pc.t = "plus2" -> IF RPos(t) THEN pt(SMul(a, t)) ELSE pt(Z)
+    [] pc.t = "vabs" -> pt(SMul(a, s))
     [] pc.t = "ind" -> IF a = b THEN <<RI(-2), Two>> ELSE IF t = a THEN <<RI(-2), Z>> ELSE IF t = b THEN <<Z, Two>> ELSE pt(Z)
     [] pc.t = "supp" -> IF RIsZ(t) THEN <<a, b>> ELSE IF RPos(t) THEN pt(b) ELSE pt(a)
-    [] pc.t = "rsi" -> pt(RMul(SgnR(t), RsiG(a, b, s)))
+    [] pc.t = "rsi" -> pt(SMul(SgnR(t), RsiG(a, b, s)))
 \* enumerated choices inside [l, u]: both end points, the mid point, and 0 when it is strictly inside
 Picks(l, u) == IF l = u THEN <<l>>
                ELSE LET md == RMid(l, u) IN IF RNg(l) /\ RPos(u) /\ ~RIsZ(md) THEN <<l, u, md, Z>> ELSE <<l, u, md>>
@@ -97,35 +147,42 @@ Mem(k, tag, dim, pc, A, c, b, f0, v) ==
 Sep1(tag, p, c, f0) == Mem("sep", tag, 1, <<p>>, <<Z>>, <<c>>, <<Z>>, f0, <<Z>>)
 Sep2(tag, p1, p2, c1, c2, f0) == Mem("sep", tag, 2, <<p1, p2>>, <<Z, Z, Z, Z>>, <<c1, c2>>, <<Z, Z>>, f0, <<Z, Z>>)
 QuadQ(tag, l1, l2, c1, c2, f0) ==
-  Mem("quadQ", tag, 2, <<>>, <<RMid(l1, l2), RHalf(RSub(l1, l2)), RHalf(RSub(l1, l2)), RMid(l1, l2)>>,
+  Mem("quadQ", tag, 2, <<>>, <<RMid(l1, l2), RHalf(SSub(l1, l2)), RHalf(SSub(l1, l2)), RMid(l1, l2)>>,
       <<c1, c2>>, <<Z, Z>>, f0, <<Z, Z>>)
 Lin1(tag, a, c, b, v) == Mem("lin", tag, 1, <<>>, <<a>>, <<c>>, <<b>>, Z, <<v>>)
 Lin2(tag, A, c1, c2, b1, b2, v1, v2) == Mem("lin", tag, 2, <<>>, A, <<c1, c2>>, <<b1, b2>>, Z, <<v1, v2>>)
 Lin2o(tag, A) == Lin2(tag, A, Z, Z, Z, Z, Z, Z)
 IJ(a, b) == <<a, RNeg(b), b, a>>                       \* a I + b J,  J = rotation by 90 degrees
 Dg(a, b) == <<a, Z, Z, b>>
-S45(l1, l2) == <<RMid(l1, l2), RHalf(RSub(l1, l2)), RHalf(RSub(l1, l2)), RMid(l1, l2)>>
+S45(l1, l2) == <<RMid(l1, l2), RHalf(SSub(l1, l2)), RHalf(SSub(l1, l2)), RMid(l1, l2)>>
 
-MatVec(A, dim, y) == IF dim = 1 THEN <<RMul(A[1], y[1])>>
-                     ELSE <<RAdd(RMul(A[1], y[1]), RMul(A[2], y[2])), RAdd(RMul(A[3], y[1]), RMul(A[4], y[2]))>>
-MatTVec(A, dim, y) == IF dim = 1 THEN <<RMul(A[1], y[1])>>
-                      ELSE <<RAdd(RMul(A[1], y[1]), RMul(A[3], y[2])), RAdd(RMul(A[2], y[1]), RMul(A[4], y[2]))>>
-MDom(m, x) == m.k = "sep" => \A i \in 1..m.dim : PDom(m.pc[i], RSub(x[i], m.c[i]))
+MatVec(A, dim, y) == IF dim = 1 THEN <<SMul(A[1], y[1])>>
+                     ELSE <<SAdd(SMul(A[1], y[1]), SMul(A[2], y[2])), SAdd(SMul(A[3], y[1]), SMul(A[4], y[2]))>>
+MatTVec(A, dim, y) == IF dim = 1 THEN <<SMul(A[1], y[1])>>
+                      ELSE <<SAdd(SMul(A[1], y[1]), SMul(A[3], y[2])), SAdd(SMul(A[2], y[1]), SMul(A[4], y[2]))>>
+HasOvf(v) == \E i \in 1..Len(v) : v[i][2] = 0
+OvfVec(dim) == IF dim = 1 THEN <<OVF>> ELSE <<OVF, OVF>>
+\* (an argument that cannot be represented makes the result OVF; the trace validation then drops the assignment)
+MDom(m, x) == LET y == TSub(x, m.c) IN HasOvf(y) \/ (m.k = "sep" => \A i \in 1..m.dim : PDom(m.pc[i], y[i]))
 MVal(m, x) ==
-  CASE m.k = "sep" -> IF m.dim = 1 THEN RAdd(m.f0, PVal(m.pc[1], RSub(x[1], m.c[1])))
-                      ELSE RAdd(m.f0, RAdd(PVal(m.pc[1], RSub(x[1], m.c[1])), PVal(m.pc[2], RSub(x[2], m.c[2]))))
-    [] m.k = "quadQ" -> LET y == VSub(x, m.c) IN RAdd(m.f0, RHalf(VDot(y, MatVec(m.A, 2, y))))
+  LET y == TSub(x, m.c) IN
+  IF HasOvf(y) THEN OVF ELSE
+  CASE m.k = "sep" -> IF m.dim = 1 THEN SAdd(m.f0, PVal(m.pc[1], y[1]))
+                      ELSE SAdd(m.f0, SAdd(PVal(m.pc[1], y[1]), PVal(m.pc[2], y[2])))
+    [] m.k = "quadQ" -> SAdd(m.f0, RHalf(TDot(y, MatVec(m.A, 2, y))))
     [] m.k = "lin" -> Z
 \* the enumerated admissible (sub)gradients / operator values at x, as a sequence of vectors
 MGrads(m, x) ==
+  LET y == TSub(x, m.c) IN
+  IF HasOvf(y) THEN << OvfVec(m.dim) >> ELSE
   CASE m.k = "sep" ->
-         IF m.dim = 1 THEN LET s == PSub(m.pc[1], RSub(x[1], m.c[1]))  P == Picks(s[1], s[2])
+         IF m.dim = 1 THEN LET s == PSub(m.pc[1], y[1])  P == Picks(s[1], s[2])
                            IN [i \in 1..Len(P) |-> <<P[i]>>]
-         ELSE LET s1 == PSub(m.pc[1], RSub(x[1], m.c[1]))  P1 == Picks(s1[1], s1[2])
-                  s2 == PSub(m.pc[2], RSub(x[2], m.c[2]))  P2 == Picks(s2[1], s2[2])
+         ELSE LET s1 == PSub(m.pc[1], y[1])  P1 == Picks(s1[1], s1[2])
+                  s2 == PSub(m.pc[2], y[2])  P2 == Picks(s2[1], s2[2])
               IN [k \in 1..(Len(P1) * Len(P2)) |-> <<P1[((k - 1) \div Len(P2)) + 1], P2[((k - 1) % Len(P2)) + 1]>>]
-    [] m.k = "quadQ" -> <<MatVec(m.A, 2, VSub(x, m.c))>>
-    [] m.k = "lin" -> <<VAdd(MatVec(m.A, m.dim, VSub(x, m.c)), m.b)>>
+    [] m.k = "quadQ" -> <<MatVec(m.A, 2, y)>>
+    [] m.k = "lin" -> <<TAdd(MatVec(m.A, m.dim, y), m.b)>>
 MOp(m, x) == MGrads(m, x)[1]                           \* single-valued members
 MGradT(m, x) == MatTVec(m.A, m.dim, x)                  \* adjoint of a linear member (c = b = 0)
 
@@ -137,14 +194,17 @@ Free(dim) == IF GridMode = 1
              THEN (IF dim = 1 THEN << <<RI(-1)>>, <<Z>>, <<Half>> >>
                    ELSE << <<Z, Z>>, <<One, Z>>, <<Q(-1, 2), One>>, <<Half, Q(-1, 2)>> >>)
              ELSE (IF dim = 1 THEN Full(1)
-                   ELSE << <<Z, Z>>, <<One, Z>>, <<Q(-1, 2), One>>, <<Half, Q(-1, 2)>>, <<Z, Half>>, <<RI(-1), RI(-1)>>,
-                           <<Half, Z>> >>)
-ZeroVec(dim) == [i \in 1..dim |-> Z]
+                   ELSE << <<Z, Z>>, <<One, Z>>, <<Q(-1, 2), One>>, <<Half, Q(-1, 2)>>, <<RI(-1), Q(-1, 2)>> >>)
+ZeroVec(dim) == IF dim = 1 THEN <<Z>> ELSE <<Z, Z>>
 DomPts(m) == SelectSeq(Full(m.dim), LAMBDA x : MDom(m, x))
-StatSeq(m) == SelectSeq(DomPts(m), LAMBDA x : ZeroVec(m.dim) \in Range(MGrads(m, x)))
-FixSeq(m) == SelectSeq(DomPts(m), LAMBDA x : x \in Range(MGrads(m, x)))
+\* where stationary points, fixed points and points attaining the infimal displacement are looked for
+H3 == <<Q(-1, 2), Z, Half>>
+Special(dim) == IF dim = 1 THEN Full(1) ELSE [k \in 1..9 |-> <<H3[((k - 1) \div 3) + 1], H3[((k - 1) % 3) + 1]>>]
+SpecialPts(m) == SelectSeq(Special(m.dim), LAMBDA x : MDom(m, x))
+StatSeq(m) == SelectSeq(SpecialPts(m), LAMBDA x : ZeroVec(m.dim) \in Range(MGrads(m, x)))
+FixSeq(m) == SelectSeq(SpecialPts(m), LAMBDA x : x \in Range(MGrads(m, x)))
 \* points where the infimal displacement vector is attained: x - T x = v
-AttSeq(m) == SelectSeq(DomPts(m), LAMBDA x : VSub(x, MOp(m, x)) = m.v)
+AttSeq(m) == SelectSeq(SpecialPts(m), LAMBDA x : TSub(x, MOp(m, x)) = m.v)
 
 (* ---- the members of each class ------------------------------------------------------------------------- *)
 \* P = the class parameters in the order of the constructor; BlockSmoothConvexFunction: one constant per block;
@@ -160,8 +220,8 @@ MembersOf(cls, P) ==
     [] cls = "StronglyConvexFunction" ->
          LET mu == P[1] IN
          << Sep1("quad-1d-mu", QAbs(mu, Z), Half, Z), Sep1("quad-abs-1d", QAbs(mu, One), Z, Z),
-            Sep1("quad-1d", QAbs(RAdd(mu, One), Z), Z, One), Sep1("quad-abs-1d-shift", QAbs(mu, Half), Half, Z),
-            Sep2("quad+quad-abs-2d", QAbs(mu, Z), QAbs(mu, One), Z, Z, Z), QuadQ("quadQ45-2d", mu, RAdd(mu, One), Z, Half, Z) >>
+            Sep1("quad-1d", QAbs(SAdd(mu, One), Z), Z, One), Sep1("quad-abs-1d-shift", QAbs(mu, Half), Half, Z),
+            Sep2("quad+quad-abs-2d", QAbs(mu, Z), QAbs(mu, One), Z, Z, Z), QuadQ("quadQ45-2d", mu, SAdd(mu, One), Z, Half, Z) >>
     [] cls = "SmoothFunction" ->
          LET L == P[1] IN
          << Sep1("quad-1d-L", QAbs(L, Z), Half, Z), Sep1("concave-quad-1d", QAbs(RNeg(L), Z), Z, One),
@@ -178,33 +238,33 @@ MembersOf(cls, P) ==
     [] cls = "SmoothStronglyConvexFunction" ->
          LET mu == P[1]  L == P[2] IN
          << Sep1("quad-1d-mu", QAbs(mu, Z), Half, Z), Sep1("quad-1d-L", QAbs(L, Z), Z, One),
-            Sep1("quad-1d-mid", QAbs(RMid(mu, L), Z), Z, Z), Sep1("mu-quad+huber-1d", QHub(mu, RSub(L, mu), Half), Z, Z),
+            Sep1("quad-1d-mid", QAbs(RMid(mu, L), Z), Z, Z), Sep1("mu-quad+huber-1d", QHub(mu, SSub(L, mu), Half), Z, Z),
             Sep2("diag(mu,L)-2d", QAbs(mu, Z), QAbs(L, Z), Half, Z, Z), QuadQ("quadQ45(mu,L)-2d", mu, L, Z, Z, Z),
-            Sep2("mu-quad+huber,L-2d", QHub(mu, RSub(L, mu), Half), QAbs(L, Z), Z, Z, Z) >>
+            Sep2("mu-quad+huber,L-2d", QHub(mu, SSub(L, mu), Half), QAbs(L, Z), Z, Z, Z) >>
     [] cls = "ConvexLipschitzFunction" ->
          LET M == P[1] IN
          << Sep1("abs-1d-M", QAbs(Z, M), Z, Z), Sep1("abs-1d-half-shift", QAbs(Z, RHalf(M)), Half, One),
-            Sep1("relu-1d-M", Relu(M), Z, Z), Sep1("huber-1d-capM", QHub(Z, RMul(Two, M), Half), Z, Z),
+            Sep1("relu-1d-M", Relu(M), Z, Z), Sep1("huber-1d-capM", QHub(Z, SMul(Two, M), Half), Z, Z),
             Sep1("affine-1d-M", Aff(M), Z, Z), Sep1("kinked-quad-1d", QK(M, M, Half), Z, Z),
-            Sep2("l1-345-2d", QAbs(Z, RMul(Q(3, 5), M)), QAbs(Z, RMul(Q(4, 5), M)), Z, Z, Z),
+            Sep2("l1-345-2d", QAbs(Z, SMul(Q(3, 5), M)), QAbs(Z, SMul(Q(4, 5), M)), Z, Z, Z),
             Sep2("abs+const-2d", QAbs(Z, M), QAbs(Z, Z), Z, Half, Z) >>
     [] cls = "SmoothConvexLipschitzFunction" ->
-         LET L == P[1]  M == P[2]  dl == RMin(RDiv(M, L), One) IN
+         LET L == P[1]  M == P[2]  dl == SMin(SDiv(M, L), One) IN
          << Sep1("huber-1d-L-capM", QHub(Z, L, dl), Z, Z), Sep1("huber-1d-half", QHub(Z, RHalf(L), dl), Half, Z),
             Sep1("affine-1d-M", Aff(M), Z, One), Sep1("const-1d", QAbs(Z, Z), Z, Z),
-            Sep2("huber+affine-345-2d", QHub(Z, L, RMin(RDiv(RMul(Q(3, 5), M), L), One)), Aff(RMul(Q(4, 5), M)), Z, Z, Z),
+            Sep2("huber+affine-345-2d", QHub(Z, L, SMin(SDiv(SMul(Q(3, 5), M), L), One)), Aff(SMul(Q(4, 5), M)), Z, Z, Z),
             Sep2("huber+const-2d", QHub(Z, L, dl), QAbs(Z, Z), Z, Z, Z) >>
     [] cls = "ConvexQGFunction" ->
          LET L == P[1] IN
          << Sep1("quad-1d-L", QAbs(L, Z), Half, Z), Sep1("quad-1d-half", QAbs(RHalf(L), Z), Z, One),
             Sep1("huber-1d", QHub(Z, L, Half), Z, Z), Sep1("plus2-1d", Plus2(L), Z, Z), Sep1("const-1d", QAbs(Z, Z), Z, Z),
-            Sep1("kinked-quad-1d", QK(RMul(Q(3, 4), L), RMul(Q(3, 4), L), Half), Z, Z),
+            Sep1("kinked-quad-1d", QK(SMul(Q(3, 4), L), SMul(Q(3, 4), L), Half), Z, Z),
             Sep2("diag(L,0)-2d", QAbs(L, Z), QAbs(Z, Z), Z, Z, Z), QuadQ("quadQ45(L,0)-2d", L, Z, Z, Z, Z),
             Sep2("huber+plus2-2d", QHub(Z, L, Half), Plus2(L), Z, Z, Z) >>
     [] cls = "RsiEbFunction" ->
          LET mu == P[1]  L == P[2] IN
          << Sep1("quad-1d-mu", QAbs(mu, Z), Half, Z), Sep1("quad-1d-L", QAbs(L, Z), Z, Z),
-            Sep1("quad-1d-mid", QAbs(RMid(mu, L), Z), Z, One), Sep1("mu-quad+huber-1d", QHub(mu, RSub(L, mu), Half), Z, Z),
+            Sep1("quad-1d-mid", QAbs(RMid(mu, L), Z), Z, One), Sep1("mu-quad+huber-1d", QHub(mu, SSub(L, mu), Half), Z, Z),
             Sep2("diag(mu,L)-2d", QAbs(mu, Z), QAbs(L, Z), Z, Z, Z), QuadQ("quadQ45(mu,L)-2d", mu, L, Z, Half, Z) >>
          \o (IF RPos(mu) THEN << Sep1("nonconvex-rsi-1d", Rsi(mu, L), Z, Z),
                                  Sep2("nonconvex-rsi+quad-2d", Rsi(mu, L), QAbs(L, Z), Z, Z, Z) >> ELSE <<>>)
@@ -223,7 +283,7 @@ MembersOf(cls, P) ==
          LET M == IF IsInf(P[1]) THEN Two ELSE P[1] IN
          << Sep1("support[-M,M]-1d", Supp(RNeg(M), M), Z, Z), Sep1("support[0,M]-1d", Supp(Z, M), Z, Z),
             Sep1("support[-M/2,M]-1d", Supp(RNeg(RHalf(M)), M), Z, Z), Sep1("support{M}-1d", Aff(M), Z, Z),
-            Sep2("support-box-345-2d", Supp(RNeg(RMul(Q(3, 5), M)), RMul(Q(3, 5), M)), Supp(RNeg(RMul(Q(4, 5), M)), RMul(Q(4, 5), M)), Z, Z, Z),
+            Sep2("support-box-345-2d", Supp(RNeg(SMul(Q(3, 5), M)), SMul(Q(3, 5), M)), Supp(RNeg(SMul(Q(4, 5), M)), SMul(Q(4, 5), M)), Z, Z, Z),
             Sep2("support-segment-2d", Supp(Z, M), Supp(Z, Z), Z, Z, Z) >>
     [] cls = "SmoothStronglyConvexQuadraticFunction" ->
          LET mu == P[1]  L == P[2] IN
@@ -237,10 +297,10 @@ MembersOf(cls, P) ==
            << Sep1("quad-1d-L", QAbs(L, Z), Half, Z), Sep1("huber-1d", QHub(Z, L, Half), Z, Z), Sep1("plus2-1d", Plus2(L), Z, Z),
               Sep2("diag(L,0)-2d", QAbs(L, Z), QAbs(Z, Z), Z, Z, Z), QuadQ("quadQ45(L,0)-2d", L, Z, Z, Z, Z) >>
          ELSE
-           LET L1 == P[1]  L2 == P[2]  mn == RMin(L1, L2) IN
+           LET L1 == P[1]  L2 == P[2]  mn == SMin(L1, L2) IN
            << Sep2("diag(L1,L2)-2d", QAbs(L1, Z), QAbs(L2, Z), Half, Z, Z), Sep2("huber+plus2-2d", QHub(Z, L1, Half), Plus2(L2), Z, Z, Z),
-              QuadQ("coupled-(x+y)^2-2d", RMul(Two, mn), Z, Z, Z, Z), Sep2("diag(L1/2,0)-2d", QAbs(RHalf(L1), Z), QAbs(Z, Z), Z, Z, One),
-              QuadQ("coupled-shift-2d", RMul(Two, mn), Z, Half, Z, Z) >>
+              QuadQ("coupled-(x+y)^2-2d", SMul(Two, mn), Z, Z, Z, Z), Sep2("diag(L1/2,0)-2d", QAbs(RHalf(L1), Z), QAbs(Z, Z), Z, Z, One),
+              QuadQ("coupled-shift-2d", SMul(Two, mn), Z, Half, Z, Z) >>
     [] cls = "CocoerciveOperator" ->
          LET a == RInv(P[1]) IN
          << Lin1("aI-1d-max", a, Half, Z, Z), Lin1("aI-1d-half+shift", RHalf(a), Z, One, Z), Lin1("zero-1d", Z, Z, Z, Z),
@@ -250,24 +310,24 @@ MembersOf(cls, P) ==
          LET mu == P[1]  a == RInv(P[2]) IN
          << Lin1("aI-1d-mu", mu, Half, Z, Z), Lin1("aI-1d-max", a, Z, One, Z), Lin1("aI-1d-mid", RMid(mu, a), Z, Z, Z),
             Lin2o("diag(mu,a)-2d", Dg(mu, a)), Lin2o("sym45(mu,a)-2d", S45(mu, a)), Lin2o("aI+bJ-tight-2d", IJ(RHalf(a), RHalf(a))),
-            Sep1("grad-mu-quad+huber-1d", QHub(mu, RSub(a, mu), Half), Z, Z) >>
+            Sep1("grad-mu-quad+huber-1d", QHub(mu, SSub(a, mu), Half), Z, Z) >>
     [] cls = "LinearOperator" ->
          LET L == P[1] IN
          << Lin1("aI-1d-L", L, Z, Z, Z), Lin1("aI-1d-negL", RNeg(L), Z, Z, Z), Lin1("zero-1d", Z, Z, Z, Z),
             Lin2o("diag(L,-L/2)-2d", Dg(L, RNeg(RHalf(L)))), Lin2o("rotation-LJ-2d", IJ(Z, L)),
-            Lin2o("aI+bJ-345-2d", IJ(RMul(Q(3, 5), L), RMul(Q(4, 5), L))), Lin2o("nilpotent-2d", <<Z, L, Z, Z>>),
+            Lin2o("aI+bJ-345-2d", IJ(SMul(Q(3, 5), L), SMul(Q(4, 5), L))), Lin2o("nilpotent-2d", <<Z, L, Z, Z>>),
             Lin2o("sym45(L,-L)-2d", S45(L, RNeg(L))), Lin2o("rank1-2d", <<RHalf(L), RHalf(L), Z, Z>>) >>
     [] cls = "LipschitzOperator" ->
          LET L == P[1] IN
          << Lin1("aI-1d-L+shift", L, Z, Half, Z), Lin1("aI-1d-negL", RNeg(L), Half, Z, Z),
-            Lin2("rotation-LJ+shift-2d", IJ(Z, L), Z, Z, Half, Z, Z, Z), Lin2o("aI+bJ-345-2d", IJ(RMul(Q(3, 5), L), RMul(Q(4, 5), L))),
+            Lin2("rotation-LJ+shift-2d", IJ(Z, L), Z, Z, Half, Z, Z, Z), Lin2o("aI+bJ-345-2d", IJ(SMul(Q(3, 5), L), SMul(Q(4, 5), L))),
             Lin2o("diag(L,0)-2d", Dg(L, Z)), Lin2o("nilpotent-2d", <<Z, L, Z, Z>>),
             Sep1("L|x|-1d", VAbs(L), Z, Z), Sep1("clip-1d", QHub(Z, L, Half), Z, Z) >>
     [] cls = "LipschitzStronglyMonotoneOperator" ->
          LET mu == P[1]  L == P[2] IN
          << Lin1("aI-1d-mu", mu, Half, Z, Z), Lin1("aI-1d-L", L, Z, One, Z), Lin1("aI-1d-mid", RMid(mu, L), Z, Z, Z),
             Lin2o("diag(mu,L)-2d", Dg(mu, L)), Lin2o("muI+(L/2)J-2d", IJ(mu, RHalf(L))),
-            Lin2o("aI+bJ-345-2d", IJ(RMul(Q(3, 5), L), RMul(Q(4, 5), L))), Sep1("grad-mu-quad+huber-1d", QHub(mu, RSub(L, mu), Half), Z, Z) >>
+            Lin2o("aI+bJ-345-2d", IJ(SMul(Q(3, 5), L), SMul(Q(4, 5), L))), Sep1("grad-mu-quad+huber-1d", QHub(mu, SSub(L, mu), Half), Z, Z) >>
          \o (IF RIsZ(mu) THEN << Lin2o("rotation-LJ-2d", IJ(Z, L)) >> ELSE <<>>)
     [] cls = "MonotoneOperator" ->
          << Lin1("aI-1d", Two, Half, Z, Z), Lin1("const-1d", Z, Z, One, Z), Lin2o("rotation-J-2d", IJ(Z, One)),
@@ -276,7 +336,7 @@ MembersOf(cls, P) ==
             Sep2("subdiff-l1-2d", QAbs(Z, One), QAbs(Z, Half), Z, Z, Z), QuadQ("grad-quadQ45-2d", Z, Two, Z, Z, Z) >>
     [] cls = "NegativelyComonotoneOperator" ->
          LET r == RInv(P[1]) IN
-         << Lin1("aI-1d-(-1/rho)", RNeg(r), Z, Z, Z), Lin1("aI-1d-(-2/rho)+shift", RNeg(RMul(Two, r)), Half, One, Z),
+         << Lin1("aI-1d-(-1/rho)", RNeg(r), Z, Z, Z), Lin1("aI-1d-(-2/rho)+shift", RNeg(SMul(Two, r)), Half, One, Z),
             Lin1("zero-1d", Z, Z, Z, Z), Lin1("aI-1d-monotone", One, Z, Half, Z),
             Lin2o("aI+bJ-tight-2d", IJ(RNeg(RHalf(r)), RHalf(r))), Lin2o("diag(-1/rho,1)-2d", Dg(RNeg(r), One)),
             Lin2o("rotation-J-2d", IJ(Z, One)), Sep1("grad-plus2-1d", Plus2(One), Z, Z) >>
@@ -292,8 +352,8 @@ MembersOf(cls, P) ==
             Lin2o("zero-2d", IJ(Z, Z)), Lin1("zero-1d", Z, Z, Z, Z) >>
     [] cls = "StronglyMonotoneOperator" ->
          LET mu == P[1] IN
-         << Lin1("aI-1d-mu", mu, Half, Z, Z), Lin1("aI-1d+shift", RAdd(mu, One), Z, One, Z),
-            Lin2o("muI+J-2d", IJ(mu, One)), Lin2o("diag(mu,mu+1)-2d", Dg(mu, RAdd(mu, One))),
+         << Lin1("aI-1d-mu", mu, Half, Z, Z), Lin1("aI-1d+shift", SAdd(mu, One), Z, One, Z),
+            Lin2o("muI+J-2d", IJ(mu, One)), Lin2o("diag(mu,mu+1)-2d", Dg(mu, SAdd(mu, One))),
             Sep1("subdiff-mu-quad+abs-1d", QAbs(mu, One), Z, Z), Sep2("subdiff-mu-quad+l1-2d", QAbs(mu, One), QAbs(mu, Z), Z, Z, Z) >>
     [] cls = "SymmetricLinearOperator" ->
          LET mu == P[1]  L == P[2] IN
@@ -309,68 +369,68 @@ Cl(name, ok) == IF ok THEN {} ELSE {name}
 \* f(y) >= f(x) + <g, y - x> + mu/2 |y - x|^2  for every subgradient g offered at x
 ConvexF(m, mu) == Cl("convexity-by-definition",
    \A p \in XGs(m) : \A y \in Dset(m) :
-      LET d == VSub(y, p[1]) IN RLeq(RAdd(RAdd(MVal(m, p[1]), VDot(p[2], d)), RHalf(RMul(mu, NSq(d)))), MVal(m, y)))
+      LET d == TSub(y, p[1]) IN SLeq(SAdd(SAdd(MVal(m, p[1]), TDot(p[2], d)), RHalf(SMul(mu, NSq(d)))), MVal(m, y)))
 \* |g_x - g_y| <= L |x - y|  (also forces a single value per point)
 LipG(m, L) == Cl("lipschitz-by-definition",
-   \A p \in XGs(m) : \A q \in XGs(m) : RLeq(NSq(VSub(p[2], q[2])), RMul(RSq(L), NSq(VSub(p[1], q[1])))))
+   \A p \in XGs(m) : \A q \in XGs(m) : SLeq(NSq(TSub(p[2], q[2])), SMul(SSq(L), NSq(TSub(p[1], q[1])))))
 \* <g_x - g_y, x - y> >= mu |x - y|^2
 MonoG(m, mu) == Cl("monotonicity-by-definition",
-   \A p \in XGs(m) : \A q \in XGs(m) : RLeq(RMul(mu, NSq(VSub(p[1], q[1]))), VDot(VSub(p[2], q[2]), VSub(p[1], q[1]))))
+   \A p \in XGs(m) : \A q \in XGs(m) : SLeq(SMul(mu, NSq(TSub(p[1], q[1]))), TDot(TSub(p[2], q[2]), TSub(p[1], q[1]))))
 \* <g_x - g_y, x - y> >= beta |g_x - g_y|^2   (beta may be negative: negative comonotonicity)
 CocoG(m, beta) == Cl("cocoercivity-by-definition",
-   \A p \in XGs(m) : \A q \in XGs(m) : RLeq(RMul(beta, NSq(VSub(p[2], q[2]))), VDot(VSub(p[2], q[2]), VSub(p[1], q[1]))))
-BoundG(m, M) == Cl("gradient-bound", \A p \in XGs(m) : RLeq(NSq(p[2]), RSq(M)))
+   \A p \in XGs(m) : \A q \in XGs(m) : SLeq(SMul(beta, NSq(TSub(p[2], q[2]))), TDot(TSub(p[2], q[2]), TSub(p[1], q[1]))))
+BoundG(m, M) == Cl("gradient-bound", \A p \in XGs(m) : SLeq(NSq(p[2]), SSq(M)))
 LipF(m, M) == Cl("lipschitz-function-by-definition",
-   \A x \in Dset(m) : \A y \in Dset(m) : RLeq(RSq(RSub(MVal(m, x), MVal(m, y))), RMul(RSq(M), NSq(VSub(x, y)))))
+   \A x \in Dset(m) : \A y \in Dset(m) : SLeq(SSq(SSub(MVal(m, x), MVal(m, y))), SMul(SSq(M), NSq(TSub(x, y)))))
 HasStat(m) == Cl("has-a-stationary-point", Len(StatSeq(m)) > 0)
 QGF(m, L) == Cl("quadratic-upper-bound-by-definition",
-   \A xs \in Range(StatSeq(m)) : \A x \in Dset(m) : RLeq(RSub(MVal(m, x), MVal(m, xs)), RHalf(RMul(L, NSq(VSub(x, xs))))))
+   \A xs \in Range(StatSeq(m)) : \A x \in Dset(m) : SLeq(SSub(MVal(m, x), MVal(m, xs)), RHalf(SMul(L, NSq(TSub(x, xs))))))
 RsiF(m, mu) == Cl("restricted-secant-by-definition",
-   \A xs \in Range(StatSeq(m)) : \A p \in XGs(m) : RLeq(RMul(mu, NSq(VSub(p[1], xs))), VDot(p[2], VSub(p[1], xs))))
+   \A xs \in Range(StatSeq(m)) : \A p \in XGs(m) : SLeq(SMul(mu, NSq(TSub(p[1], xs))), TDot(p[2], TSub(p[1], xs))))
 EbF(m, L) == Cl("error-bound-by-definition",
-   \A xs \in Range(StatSeq(m)) : \A p \in XGs(m) : RLeq(NSq(p[2]), RMul(RSq(L), NSq(VSub(p[1], xs)))))
+   \A xs \in Range(StatSeq(m)) : \A p \in XGs(m) : SLeq(NSq(p[2]), SMul(SSq(L), NSq(TSub(p[1], xs)))))
 IndF(m, D) == Cl("indicator-by-definition",
       /\ Len(DomPts(m)) > 0
       /\ \A x \in Dset(m) : RIsZ(MVal(m, x))
-      /\ \A p \in XGs(m) : \A y \in Dset(m) : RLeq0(VDot(p[2], VSub(y, p[1])))         \* normal cone
-      /\ IsInf(D) \/ \A x \in Dset(m) : \A y \in Dset(m) : RLeq(NSq(VSub(x, y)), RSq(D)))
+      /\ \A p \in XGs(m) : \A y \in Dset(m) : RLeq0(TDot(p[2], TSub(y, p[1])))         \* normal cone
+      /\ IsInf(D) \/ \A x \in Dset(m) : \A y \in Dset(m) : SLeq(NSq(TSub(x, y)), SSq(D)))
 \* support function of the box prod [lo_i, hi_i]: sigma(x) = max over the vertices v of <v, x>; C inside the M-ball
 SuppF(m, M) ==
    LET lo(i) == m.pc[i].p[1]  hi(i) == m.pc[i].p[2]
        Vert == IF m.dim = 1 THEN {<<lo(1)>>, <<hi(1)>>} ELSE {<<a, b>> : a \in {lo(1), hi(1)}, b \in {lo(2), hi(2)}}
-       mx(x) == CHOOSE s \in {VDot(v, x) : v \in Vert} : \A v \in Vert : RLeq(VDot(v, x), s)
+       mx(x) == CHOOSE s \in {TDot(v, x) : v \in Vert} : \A v \in Vert : SLeq(TDot(v, x), s)
    IN Cl("support-function-by-definition",
-      /\ \A i \in 1..m.dim : m.pc[i].t = "supp" /\ RLeq(lo(i), hi(i)) /\ RIsZ(m.c[i])
+      /\ \A i \in 1..m.dim : m.pc[i].t = "supp" /\ SLeq(lo(i), hi(i)) /\ RIsZ(m.c[i])
       /\ RIsZ(m.f0)
       /\ \A x \in Dset(m) : MVal(m, x) = mx(x)
-      /\ IsInf(M) \/ \A v \in Vert : RLeq(NSq(v), RSq(M))
-      /\ \A p \in XGs(m) : \A i \in 1..m.dim : RLeq(lo(i), p[2][i]) /\ RLeq(p[2][i], hi(i)))    \* subgradients lie in C
+      /\ IsInf(M) \/ \A v \in Vert : SLeq(NSq(v), SSq(M))
+      /\ \A p \in XGs(m) : \A i \in 1..m.dim : SLeq(lo(i), p[2][i]) /\ SLeq(p[2][i], hi(i)))    \* subgradients lie in C
 \* exact second-order expansion with a symmetric Hessian: f(y) = f(x) + <g_x, y-x> + 1/2 <g_y - g_x, y - x>
 QuadF(m) == Cl("quadratic-by-definition",
    \A p \in XGs(m) : \A q \in XGs(m) :
-      LET d == VSub(q[1], p[1]) IN MVal(m, q[1]) = RAdd(RAdd(MVal(m, p[1]), VDot(p[2], d)), RHalf(VDot(VSub(q[2], p[2]), d))))
+      LET d == TSub(q[1], p[1]) IN MVal(m, q[1]) = SAdd(SAdd(MVal(m, p[1]), TDot(p[2], d)), RHalf(TDot(TSub(q[2], p[2]), d))))
 \* block k = coordinate k: the partial gradient along block k is L_k-Lipschitz along block k
 BlockF(m, Ls) == Cl("block-smoothness-by-definition",
    IF Len(Ls) = 1 THEN LipG(m, Ls[1]) = {}
    ELSE m.dim = 2 /\ \A k \in 1..2 : \A p \in XGs(m) : \A q \in XGs(m) :
-          (p[1][3 - k] = q[1][3 - k]) => RLeq(RSq(RSub(p[2][k], q[2][k])), RMul(RSq(Ls[k]), RSq(RSub(p[1][k], q[1][k])))))
+          (p[1][3 - k] = q[1][3 - k]) => SLeq(SSq(SSub(p[2][k], q[2][k])), SMul(SSq(Ls[k]), SSq(SSub(p[1][k], q[1][k])))))
 \* linearity: T(x + y) = T x + T y, T(2x) = 2 T x (T is defined on every rational vector), adjoint identity
 LinearO(m) == Cl("linearity-by-definition",
    /\ m.k = "lin"
    /\ \A x \in Dset(m) : \A y \in Dset(m) :
-        /\ MOp(m, VAdd(x, y)) = VAdd(MOp(m, x), MOp(m, y))
-        /\ VDot(MOp(m, x), y) = VDot(x, MGradT(m, y))
-   /\ \A x \in Dset(m) : MOp(m, VScale(Two, x)) = VScale(Two, MOp(m, x)))
+        /\ MOp(m, TAdd(x, y)) = TAdd(MOp(m, x), MOp(m, y))
+        /\ TDot(MOp(m, x), y) = TDot(x, MGradT(m, y))
+   /\ \A x \in Dset(m) : MOp(m, TScale(Two, x)) = TScale(Two, MOp(m, x)))
 NormO(m, L) == Cl("operator-norm-by-definition",
-   \A x \in Dset(m) : RLeq(NSq(MOp(m, x)), RMul(RSq(L), NSq(x))) /\ RLeq(NSq(MGradT(m, x)), RMul(RSq(L), NSq(x))))
+   \A x \in Dset(m) : SLeq(NSq(MOp(m, x)), SMul(SSq(L), NSq(x))) /\ SLeq(NSq(MGradT(m, x)), SMul(SSq(L), NSq(x))))
 SymO(m, s) == Cl("(skew-)symmetry-by-definition",
-   \A x \in Dset(m) : \A y \in Dset(m) : VDot(MOp(m, x), y) = RMul(s, VDot(x, MOp(m, y))))
+   \A x \in Dset(m) : \A y \in Dset(m) : TDot(MOp(m, x), y) = SMul(s, TDot(x, MOp(m, y))))
 SpecO(m, mu, L) == Cl("spectrum-by-definition",
-   \A x \in Dset(m) : RLeq(RMul(mu, NSq(x)), VDot(MOp(m, x), x)) /\ RLeq(VDot(MOp(m, x), x), RMul(L, NSq(x))))
+   \A x \in Dset(m) : SLeq(SMul(mu, NSq(x)), TDot(MOp(m, x), x)) /\ SLeq(TDot(MOp(m, x), x), SMul(L, NSq(x))))
 \* v = the element of minimal norm of the (closed) range of Id - T, attained on the grid
 InfDispO(m) == Cl("infimal-displacement-by-definition",
    /\ Len(AttSeq(m)) > 0
-   /\ \A x \in Dset(m) : RLeq(NSq(m.v), NSq(VSub(x, MOp(m, x))))
+   /\ \A x \in Dset(m) : SLeq(NSq(m.v), NSq(TSub(x, MOp(m, x))))
    /\ (Len(FixSeq(m)) > 0 => VIsZero(m.v)))
 
 DefFails(cls, P, m) ==
@@ -399,26 +459,82 @@ DefFails(cls, P, m) ==
     [] cls = "StronglyMonotoneOperator" -> MonoG(m, P[1])
     [] cls = "SymmetricLinearOperator" -> LinearO(m) \cup SymO(m, One) \cup SpecO(m, P[1], P[2])
 
+(* ---- near misses: functions / operators just OUTSIDE each class; the definition check must reject them ---- *)
+(* (this validates that DefFails discriminates on the grid; the model run fails if one of them is accepted)    *)
+NonMembersOf(cls, P) ==
+  CASE cls = "ConvexFunction" -> << Sep1("concave-quad", QAbs(RI(-1), Z), Z, Z), Sep1("x|x|", VAbs(One), Z, Z) >>
+    [] cls = "StronglyConvexFunction" -> IF RPos(P[1]) THEN << Sep1("quad-mu/2", QAbs(RHalf(P[1]), Z), Z, Z), Sep1("abs", QAbs(Z, One), Z, Z) >> ELSE <<>>
+    [] cls = "SmoothFunction" -> << Sep1("quad-2L", QAbs(SMul(Two, P[1]), Z), Z, Z), Sep1("abs", QAbs(Z, One), Z, Z),
+                                    Sep1("concave-quad-2L", QAbs(RNeg(SMul(Two, P[1])), Z), Z, Z) >>
+    [] cls = "SmoothConvexFunction" -> << Sep1("quad-2L", QAbs(SMul(Two, P[1]), Z), Z, Z), Sep1("concave-quad", QAbs(RNeg(P[1]), Z), Z, Z),
+                                          QuadQ("saddle", P[1], RNeg(P[1]), Z, Z, Z) >>
+    [] cls = "SmoothStronglyConvexFunction" ->
+         << Sep1("quad-2L", QAbs(SMul(Two, P[2]), Z), Z, Z) >> \o
+         (IF RPos(P[1]) THEN << Sep1("quad-mu/2", QAbs(RHalf(P[1]), Z), Z, Z), QuadQ("quadQ45(mu/2,L)", RHalf(P[1]), P[2], Z, Z, Z) >> ELSE <<>>)
+    [] cls = "ConvexLipschitzFunction" -> << Sep1("abs-2M", QAbs(Z, SMul(Two, P[1])), Z, Z), Sep1("quad", QAbs(RI(4), Z), Z, Z),
+                                             Sep2("l1-(M,M)", QAbs(Z, P[1]), QAbs(Z, P[1]), Z, Z, Z) >>
+    [] cls = "SmoothConvexLipschitzFunction" -> << Sep1("affine-2M", Aff(SMul(Two, P[2])), Z, Z), Sep1("huber-2L", QHub(Z, SMul(Two, P[1]), Half), Z, Z) >>
+    [] cls = "ConvexQGFunction" -> << Sep1("quad-2L", QAbs(SMul(Two, P[1]), Z), Z, Z), Sep1("abs", QAbs(Z, One), Z, Z),
+                                      Sep1("dead-zone", QK(Z, RHalf(P[1]), Half), Z, Z) >>
+    [] cls = "RsiEbFunction" -> << Sep1("quad-2L", QAbs(SMul(Two, P[2]), Z), Z, Z) >> \o
+                                (IF RPos(P[1]) THEN << Sep1("quad-mu/2", QAbs(RHalf(P[1]), Z), Z, Z), Sep1("plus2", Plus2(P[2]), Z, Z) >> ELSE <<>>)
+    [] cls = "ConvexIndicatorFunction" -> IF IsInf(P[1]) THEN << Sep1("abs", QAbs(Z, One), Z, Z) >>
+                                          ELSE (IF P[1] = One THEN << Sep1("interval-2D", Ind(Z, Two), RI(-1), Z) >> ELSE <<>>)   \* (the grid spans 2)
+                                               \o << Sep1("abs", QAbs(Z, One), Z, Z) >>
+    [] cls = "ConvexSupportFunction" -> << Sep1("quad", QAbs(One, Z), Z, Z) >> \o
+                                        (IF IsInf(P[1]) THEN <<>> ELSE << Sep1("support[-2M,M]", Supp(RNeg(SMul(Two, P[1])), P[1]), Z, Z) >>)
+    [] cls = "SmoothStronglyConvexQuadraticFunction" ->
+         << Sep1("quad-2L", QAbs(SMul(Two, P[2]), Z), Z, Z), Sep1("huber", QHub(P[1], SSub(SMul(Two, P[2]), P[1]), Half), Z, Z), Sep1("plus2", Plus2(P[2]), Z, Z) >>
+    [] cls = "BlockSmoothConvexFunction" ->
+         IF Len(P) = 1 THEN << Sep1("quad-2L", QAbs(SMul(Two, P[1]), Z), Z, Z) >>
+         ELSE << Sep2("diag(2L1,L2)", QAbs(SMul(Two, P[1]), Z), QAbs(P[2], Z), Z, Z, Z), Sep2("diag(L1,2L2)", QAbs(P[1], Z), QAbs(SMul(Two, P[2]), Z), Z, Z, Z),
+                 QuadQ("coupled-too-steep", SMul(RI(4), SMin(P[1], P[2])), Z, Z, Z, Z) >>
+    [] cls = "CocoerciveOperator" -> << Lin2o("rotation", IJ(Z, One)), Lin1("2/beta", SMul(Two, RInv(P[1])), Z, Z, Z), Lin1("negative", RI(-1), Z, Z, Z) >>
+    [] cls = "CocoerciveStronglyMonotoneOperator" ->
+         << Lin1("2/beta", SMul(Two, RInv(P[2])), Z, Z, Z) >> \o (IF RPos(P[1]) THEN << Lin1("mu/2", RHalf(P[1]), Z, Z, Z) >> ELSE <<>>)
+    [] cls = "LinearOperator" -> << Lin1("2L", SMul(Two, P[1]), Z, Z, Z), Lin1("affine", P[1], Z, One, Z), Sep1("clip", QHub(Z, P[1], Half), Z, Z),
+                                    Lin2o("shear", <<P[1], P[1], Z, P[1]>>) >>
+    [] cls = "LipschitzOperator" -> << Lin1("2L", SMul(Two, P[1]), Z, Z, Z), Lin2o("shear", <<P[1], P[1], Z, P[1]>>), Sep1("sign", QAbs(Z, One), Z, Z) >>
+    [] cls = "LipschitzStronglyMonotoneOperator" ->
+         << Lin1("2L", SMul(Two, P[2]), Z, Z, Z) >> \o (IF RPos(P[1]) THEN << Lin2o("rotation", IJ(Z, P[2])), Lin1("mu/2", RHalf(P[1]), Z, Z, Z) >> ELSE <<>>)
+    [] cls = "MonotoneOperator" -> << Lin1("negative", RI(-1), Z, Z, Z), Lin2o("diag(1,-1)", Dg(One, RI(-1))), Sep1("x|x|'", VAbs(One), Z, Z) >>
+    [] cls = "NegativelyComonotoneOperator" -> << Lin1("-1/(2rho)", RNeg(RHalf(RInv(P[1]))), Z, Z, Z), Lin2o("diag(-1/(2rho),1)", Dg(RNeg(RHalf(RInv(P[1]))), One)) >>
+    [] cls = "NonexpansiveOperator" -> << Lin1("expansion", Two, Z, Z, Z), Lin1("translation-with-v=0", One, Z, Half, Z),
+                                          Lin1("translation-with-wrong-v", One, Z, Half, Half), Lin2o("shear", <<One, One, Z, One>>) >>
+    [] cls = "SkewSymmetricLinearOperator" -> << Lin2o("symmetric", Dg(P[1], P[1])), Lin2o("2LJ", IJ(Z, SMul(Two, P[1]))), Lin1("nonzero-1d", P[1], Z, Z, Z),
+                                                 Lin2("affine", IJ(Z, P[1]), Z, Z, One, Z, Z, Z) >>
+    [] cls = "StronglyMonotoneOperator" -> IF RPos(P[1]) THEN << Lin2o("rotation", IJ(Z, One)), Lin1("mu/2", RHalf(P[1]), Z, Z, Z) >> ELSE << Lin1("negative", RI(-1), Z, Z, Z) >>
+    [] cls = "SymmetricLinearOperator" -> << Lin2o("not-symmetric", IJ(RMid(P[1], P[2]), One)), Lin1("2L+1", SAdd(SMul(Two, P[2]), One), Z, Z, Z),
+                                             Lin1("below-mu", SSub(P[1], One), Z, Z, Z), Lin2o("sym45-too-wide", S45(SSub(P[1], One), P[2])) >>
+
 (* ---- positive semidefiniteness of a small symmetric rational matrix ------------------------------------ *)
 \* symmetric Gaussian elimination: M >= 0 iff every pivot is >= 0 and a zero pivot has a zero row
-RECURSIVE PSDm(_, _)
-PSDm(M, n) == IF n = 0 THEN TRUE ELSE
+\* PSD3 = 1 (positive semidefinite) / 0 (not) / 2 (not decidable within the 32-bit guard)
+The(S) == CHOOSE r \in S : TRUE
+RECURSIVE PSD3(_, _)
+PSD3(M, n) == IF n = 0 THEN 1 ELSE
    LET d == M[1][1] IN
-   IF RNg(d) THEN FALSE
-   ELSE IF RIsZ(d) THEN (\A j \in 2..n : RIsZ(M[1][j])) /\ PSDm([i \in 1..(n - 1) |-> [j \in 1..(n - 1) |-> M[i + 1][j + 1]]], n - 1)
-   ELSE PSDm([i \in 1..(n - 1) |-> [j \in 1..(n - 1) |-> RSub(M[i + 1][j + 1], RDiv(RMul(M[i + 1][1], M[1][j + 1]), d))]], n - 1)
+   IF \E i \in 1..n : \E j \in 1..n : IsOvf(M[i][j]) THEN 2
+   ELSE IF RNg(d) THEN 0
+   ELSE IF RIsZ(d) THEN (IF \E j \in 2..n : ~RIsZ(M[1][j]) THEN 0
+                         ELSE The({PSD3(M2, n - 1) : M2 \in {[i \in 1..(n - 1) |-> [j \in 1..(n - 1) |-> M[i + 1][j + 1]]]}}))
+   \* (the reduced matrix is bound by a quantifier so that TLC holds it as an evaluated value, not as a lazy lambda;
+   \*  the quotient M[1][j] / d is formed first: it is a ratio of entries of one row and stays small)
+   ELSE The({PSD3(M2, n - 1) : M2 \in {[i \in 1..(n - 1) |-> [j \in 1..(n - 1) |->
+                       SSub(M[i + 1][j + 1], SMul(M[i + 1][1], SDiv(M[1][j + 1], d)))]]}})
+PSDm(M, n) == PSD3(M, n) = 1
 \* the textbook criterion (all principal minors >= 0), sizes 1..3, used to validate PSDm in the model run
-Det2(M, a, b) == RSub(RMul(M[a][a], M[b][b]), RMul(M[a][b], M[b][a]))
-Det3(M) == RAdd(RSub(RMul(M[1][1], RSub(RMul(M[2][2], M[3][3]), RMul(M[2][3], M[3][2]))),
-                     RMul(M[1][2], RSub(RMul(M[2][1], M[3][3]), RMul(M[2][3], M[3][1])))),
-                RMul(M[1][3], RSub(RMul(M[2][1], M[3][2]), RMul(M[2][2], M[3][1]))))
+Det2(M, a, b) == SSub(SMul(M[a][a], M[b][b]), SMul(M[a][b], M[b][a]))
+Det3(M) == SAdd(SSub(SMul(M[1][1], SSub(SMul(M[2][2], M[3][3]), SMul(M[2][3], M[3][2]))),
+                     SMul(M[1][2], SSub(SMul(M[2][1], M[3][3]), SMul(M[2][3], M[3][1])))),
+                SMul(M[1][3], SSub(SMul(M[2][1], M[3][2]), SMul(M[2][2], M[3][1]))))
 PSDminors(M, n) == /\ \A i \in 1..n : RGeq0(M[i][i])
                    /\ \A i \in 1..n : \A j \in (i + 1)..n : RGeq0(Det2(M, i, j))
                    /\ n = 3 => RGeq0(Det3(M))
 SymM3(a, b, c, d, e, f) == << <<RI(a), RI(b), RI(c)>>, <<RI(b), RI(d), RI(e)>>, <<RI(c), RI(e), RI(f)>> >>
 PSDSelfTest == \A a \in -1..2 : \A b \in -1..1 : \A c \in -1..1 : \A d \in 0..2 : \A e \in -1..1 : \A f \in 0..2 :
                   LET M == SymM3(a, b, c, d, e, f) IN
-                  /\ PSDm(M, 3) = PSDminors(M, 3)
+                  /\ PSDm(M, 3) = PSDminors(M, 3) /\ PSD3(M, 3) \in {0, 1}
                   /\ PSDm(<< <<RI(a), RI(b)>>, <<RI(b), RI(d)>> >>, 2) = PSDminors(<< <<RI(a), RI(b)>>, <<RI(b), RI(d)>> >>, 2)
 
 (* ---- the cases (class, parameters) and the model run ---------------------------------------------------- *)
@@ -466,14 +582,17 @@ mvars == <<ci, phase, fails>>
 Init == ci \in 1..Len(Cases) /\ phase = 0 /\ fails = {}
 Check == /\ phase = 0
          /\ LET c == Cases[ci]  Ms == MembersOf(c.cls, c.P) IN
+            LET Ns == NonMembersOf(c.cls, c.P) IN
             fails' = UNION {{<<c.cls, Ms[i].tag, f>> : f \in DefFails(c.cls, c.P, Ms[i])} : i \in 1..Len(Ms)}
+                     \cup {<<c.cls, Ns[i].tag, "NON-MEMBER-ACCEPTED">> : i \in {j \in 1..Len(Ns) : DefFails(c.cls, c.P, Ns[j]) = {}}}
          /\ phase' = 1 /\ ci' = ci
 Spec == Init /\ [][Check]_mvars
 MembersAreMembers == fails = {}
 ASSUME PSDSelfTest
 FlatCase(c) == LET Ms == MembersOf(c.cls, c.P) IN
-   [cls |-> c.cls, Pn |-> [i \in 1..Len(c.P) |-> c.P[i][1]], Pd |-> [i \in 1..Len(c.P) |-> c.P[i][2]],
+   [ci |-> CHOOSE i \in 1..Len(Cases) : Cases[i] = c, cls |-> c.cls, Pn |-> [i \in 1..Len(c.P) |-> c.P[i][1]], Pd |-> [i \in 1..Len(c.P) |-> c.P[i][2]],
     tags |-> [i \in 1..Len(Ms) |-> Ms[i].tag], dims |-> [i \in 1..Len(Ms) |-> Ms[i].dim],
+    nnon |-> Len(NonMembersOf(c.cls, c.P)),
     nstat |-> [i \in 1..Len(Ms) |-> Len(StatSeq(Ms[i]))], nfix |-> [i \in 1..Len(Ms) |-> Len(FixSeq(Ms[i]))]]
 Emit == phase = 1 => PrintT(ToJson(FlatCase(Cases[ci])))
 =============================================================================
